@@ -417,6 +417,9 @@ func (e *consEnv) ensureProposal(withParts int) {
 	}
 }
 
+// quorum is the number of (equal-power) validators that makes +2/3.
+func (e *consEnv) quorum() int { return e.nVals*2/3 + 1 }
+
 // others lists validator indices other than the node's.
 func (e *consEnv) others() []int {
 	var o []int
@@ -463,9 +466,10 @@ func (e *consEnv) drive(state string) {
 	bid := types.BlockID{Hash: rs.ProposalBlock.Hash(), PartSetHeader: rs.ProposalBlockParts.Header()}
 	oth := e.others()
 	// prevotes from enough others that, with the node's own (if any), there are exactly 2 of 4 (no polka) ...
-	nPre := 2
+	// one vote short of a polka (counting the node's own prevote, if it is a validator) ...
+	nPre := e.quorum() - 1
 	if e.nodeVal >= 0 {
-		nPre = 1
+		nPre--
 	}
 	if state == "precommits" {
 		nPre++ // ... or a polka
